@@ -2289,3 +2289,250 @@ func errOverwrittenInLoop(f *ssa.Function) []ssa.Instruction {
 	}
 	return out
 }
+
+// c16TablesInverse (TABLES-INVERSE): names of enumerated settings are written through one table (value -> string) and
+// read through another (string -> value). A round trip keeps a setting only if the two are inverse bijections: every
+// (v -> s) of the writer table has (s -> v) in the reader table and conversely. Decided for every pair of package-level
+// map literals of bufconfig with constant keys and values and mirrored types (map[T]string next to map[string]T).
+func c16TablesInverse(c *Ctx) {
+	const rule = "TABLES-INVERSE"
+	c.Rule(rule, "each value->name table is the inverse of the name->value table of the same type", 2)
+	p := c.P
+	pk := p.Pkg("private/bufpkg/bufconfig")
+	if pk == nil {
+		c.Fail(rule, "anchor", token.NoPos, "bufconfig not found")
+		return
+	}
+	info := pk.TypesInfo
+	type table struct {
+		name string
+		pos  token.Pos
+		kt   types.Type
+		vt   types.Type
+		m    map[string]string // key (as exact constant text) -> value
+		ok   bool
+	}
+	var tables []*table
+	for _, f := range pk.Syntax {
+		if strings.HasSuffix(p.Fset.Position(f.Pos()).Filename, "_test.go") {
+			continue
+		}
+		for _, d := range f.Decls {
+			gd, ok := d.(*ast.GenDecl)
+			if !ok || gd.Tok != token.VAR {
+				continue
+			}
+			for _, sp := range gd.Specs {
+				vs := sp.(*ast.ValueSpec)
+				for i, nm := range vs.Names {
+					if i >= len(vs.Values) {
+						continue
+					}
+					lit, ok := vs.Values[i].(*ast.CompositeLit)
+					if !ok {
+						continue
+					}
+					mt, ok := info.TypeOf(lit).Underlying().(*types.Map)
+					if !ok {
+						continue
+					}
+					t := &table{name: nm.Name, pos: nm.Pos(), kt: mt.Key(), vt: mt.Elem(), m: map[string]string{}, ok: true}
+					for _, el := range lit.Elts {
+						kv, isKV := el.(*ast.KeyValueExpr)
+						if !isKV {
+							t.ok = false
+							break
+						}
+						ktv, ok1 := info.Types[kv.Key]
+						vtv, ok2 := info.Types[kv.Value]
+						if !ok1 || !ok2 || ktv.Value == nil || vtv.Value == nil {
+							t.ok = false
+							break
+						}
+						t.m[ktv.Value.ExactString()] = vtv.Value.ExactString()
+					}
+					if t.ok && len(t.m) > 0 {
+						tables = append(tables, t)
+					}
+				}
+			}
+		}
+	}
+	isStr := func(t types.Type) bool {
+		b, ok := t.Underlying().(*types.Basic)
+		return ok && b.Kind() == types.String && types.Identical(t, types.Typ[types.String])
+	}
+	n := 0
+	for _, a := range tables {
+		if !isStr(a.vt) || isStr(a.kt) {
+			continue
+		}
+		for _, b := range tables {
+			if !isStr(b.kt) || !types.Identical(b.vt, a.kt) {
+				continue
+			}
+			n++
+			var bad []string
+			for k, s := range a.m {
+				if b.m[s] != k {
+					bad = append(bad, fmt.Sprintf("%s: %s -> %s but %s: %s -> %s", a.name, k, s, b.name, s, b.m[s]))
+				}
+			}
+			for s, k := range b.m {
+				if a.m[k] != s {
+					bad = append(bad, fmt.Sprintf("%s: %s -> %s but %s: %s -> %s", b.name, s, k, a.name, k, a.m[k]))
+				}
+			}
+			sortStrings(bad)
+			c.Ob(rule, a.name+"<->"+b.name, a.pos, len(bad) == 0, true, "%d and %d entries, mismatches: %v", len(a.m), len(b.m), bad)
+		}
+	}
+	if n == 0 {
+		c.Fail(rule, "anchor", token.NoPos, "no mirrored pair of constant map tables found in bufconfig")
+	}
+}
+
+func sortStrings(s []string) {
+	for i := 1; i < len(s); i++ {
+		for j := i; j > 0 && s[j] < s[j-1]; j-- {
+			s[j], s[j-1] = s[j-1], s[j]
+		}
+	}
+}
+
+// ruleArgsNamesake (ARGS-NAMESAKE): constructors of the config types take long runs of same-typed parameters
+// (…, rpcAllowGoogleProtobufEmptyRequests bool, rpcAllowGoogleProtobufEmptyResponses bool, …); the compiler cannot see
+// two of them swapped. When an argument is the result of a zero-argument accessor whose name equals (ignoring case) the
+// name of one of the callee's parameters, it must be passed in that parameter's position.
+func ruleArgsNamesake(c *Ctx, rule string, pkgs []*packages.Package, min int) {
+	c.Rule(rule, "an accessor result passed to a constructor lands in the parameter that bears its name", min)
+	p := c.P
+	for _, pk := range pkgs {
+		info := pk.TypesInfo
+		for _, f := range pk.Syntax {
+			if strings.HasSuffix(p.Fset.Position(f.Pos()).Filename, "_test.go") {
+				continue
+			}
+			ast.Inspect(f, func(n ast.Node) bool {
+				call, ok := n.(*ast.CallExpr)
+				if !ok || len(call.Args) < 2 {
+					return true
+				}
+				fn := Callee(info, call)
+				if fn == nil || fn.Pkg() == nil || !strings.HasPrefix(fn.Pkg().Path(), modPath) {
+					return true
+				}
+				sig := fn.Type().(*types.Signature)
+				pos := map[string]int{}
+				for i := 0; i < sig.Params().Len(); i++ {
+					if nm := sig.Params().At(i).Name(); nm != "" && nm != "_" {
+						pos[strings.ToLower(nm)] = i
+					}
+				}
+				var bad []string
+				checked := 0
+				for i, a := range call.Args {
+					ac, ok := ast.Unparen(a).(*ast.CallExpr)
+					if !ok || len(ac.Args) != 0 {
+						continue
+					}
+					sel, ok := ast.Unparen(ac.Fun).(*ast.SelectorExpr)
+					if !ok {
+						continue
+					}
+					want, has := pos[strings.ToLower(sel.Sel.Name)]
+					if !has {
+						continue
+					}
+					checked++
+					if want != i && !(sig.Variadic() && i >= sig.Params().Len()-1) {
+						bad = append(bad, fmt.Sprintf("%s() passed as parameter %d (%s), the parameter of that name is %d", sel.Sel.Name, i, sig.Params().At(minInt(i, sig.Params().Len()-1)).Name(), want))
+					}
+				}
+				if checked < 2 {
+					return true
+				}
+				name := "?"
+				if fd := p.EnclosingFuncDecl(call); fd != nil {
+					name = declName(fd)
+				}
+				c.Ob(rule, fmt.Sprintf("%s.%s->%s", relPkg(pk.PkgPath), name, fn.Name()), call.Pos(), len(bad) == 0, true, "%d accessor arguments have a namesake parameter; misplaced: %v", checked, bad)
+				return true
+			})
+		}
+	}
+}
+
+func minInt(a, b int) int {
+	if a < b {
+		return a
+	}
+	return b
+}
+
+// c16HoistCountsAll (HOIST-COUNTS-ALL): when a v2 buf.yaml is written, a lint/breaking section that ALL modules share
+// is hoisted to the top level ("one distinct rendering => hoist"). The set of distinct renderings must therefore
+// receive the rendering of every module, default (empty) ones included: if empty sections are left out, a module with
+// no section of its own is counted as agreeing with the others and, after the hoist, inherits their non-default
+// configuration on the next read. In the writer, each store into a map from rendered section text to section is a
+// top-level statement of the loop over the modules (no condition around it).
+func c16HoistCountsAll(c *Ctx) {
+	const rule = "HOIST-COUNTS-ALL"
+	c.Rule(rule, "the distinct-section sets used for hoisting receive every module's section", 2)
+	p := c.P
+	fr := p.Func("private/bufpkg/bufconfig", "writeBufYAMLFile")
+	if fr == nil {
+		c.Fail(rule, "anchor", token.NoPos, "writeBufYAMLFile not found")
+		return
+	}
+	info := fr.Info()
+	n := 0
+	ast.Inspect(fr.Decl.Body, func(m ast.Node) bool {
+		as, ok := m.(*ast.AssignStmt)
+		if !ok || len(as.Lhs) != 1 {
+			return true
+		}
+		ix, ok := ast.Unparen(as.Lhs[0]).(*ast.IndexExpr)
+		if !ok {
+			return true
+		}
+		mt, ok := info.TypeOf(ix.X).Underlying().(*types.Map)
+		if !ok || !strings.HasPrefix(namedName(mt.Elem()), "external") {
+			return true
+		}
+		if b, ok := mt.Key().Underlying().(*types.Basic); !ok || b.Kind() != types.String {
+			return true
+		}
+		n++
+		// parent chain up to the enclosing loop: only blocks
+		direct := false
+		var cur ast.Node = as
+		for {
+			par := p.Parent(cur)
+			if par == nil {
+				break
+			}
+			if blk, ok := par.(*ast.BlockStmt); ok {
+				if _, isLoop := p.Parent(blk).(*ast.RangeStmt); isLoop {
+					direct = true
+					break
+				}
+				if _, isFor := p.Parent(blk).(*ast.ForStmt); isFor {
+					direct = true
+					break
+				}
+				// a nested plain block is fine, an if/switch body is not
+				if _, plain := p.Parent(blk).(*ast.BlockStmt); plain {
+					cur = blk
+					continue
+				}
+			}
+			break
+		}
+		c.Ob(rule, "writeBufYAMLFile/"+exprString(ix.X), as.Pos(), direct, true, "%s receives the section of every module (store is unconditional in the module loop): %v", exprString(ix.X), direct)
+		return true
+	})
+	if n == 0 {
+		c.Fail(rule, "anchor", fr.Decl.Pos(), "no distinct-section map store found in writeBufYAMLFile")
+	}
+}
